@@ -22,7 +22,7 @@ EXPLANATION = (
     "The post-condition of the statement (configured weight exactly at the successful members whose ascending rank of the sort value is in "
     "[first,last], zero elsewhere, failed members never ranked, window size) is proved for the real _sort_and_select and the filter methods for "
     "all real sort values (ties included: any consistent ranking is admitted), all configured weights, every failure mask and every window, per "
-    "ensemble size n <= 3 (quick) / 4 (thorough). np.argsort is used by contract (some sorting permutation, NaN last). The row mapping of "
+    "ensemble size n <= 3 (quick) / 6 (thorough), the values symbolic, i.e. every ordering including ties at once. np.argsort is used by contract (some sorting permutation, NaN last). The row mapping of "
     "_calculate_filtered_realization_weights is proved against abstract filters for every filter-index map over <= 2 objectives, <= 2 constraints, <= 2 filters."
 )
 ASSUMPTIONS = [
@@ -230,7 +230,7 @@ MANIFEST = {
     "category": "proof",
     "text": "Deductive: the rank-window post-condition of C05 is discharged by z3 on the real _sort_and_select / sort filter methods / _check_range / "
             "get_realization_weights and the row mapping of _calculate_filtered_realization_weights, for all real sort values (ties included), weights, "
-            "every failure mask and window; complete per enumerated ensemble size (n <= 3 quick, <= 4 thorough) and per filter-index map over <= 2 objectives, 2 constraints, 2 filters.",
+            "every failure mask and window; complete per enumerated ensemble size (n <= 3 quick, <= 6 thorough) and per filter-index map over <= 2 objectives, 2 constraints, 2 filters.",
     "note": "np.argsort by contract (a sorting permutation, NaN last); floats as reals; bounded in shape only; pydantic option parsing in __init__ not under contract (only _check_range)",
     "technique": "contract-based deductive verification: symbolic execution of the real source under sidecar contracts, VCs discharged by z3/cvc5; bounded run-time contract checking as stand-in",
 }
